@@ -13,6 +13,8 @@ structure DSt where
                  allowSuspend := false, allowUpgrade := false }
   s : St := St.init { limit := 0, perIp := 0, threadSafe := true, epoll := false, tpc := false,
                       allowSuspend := false, allowUpgrade := false }
+  /-- MHD_OPTION_THREAD_POOL_SIZE as configured -/
+  pool : Nat := 0
   /-- addresses seen, for the `ipc` line -/
   addrs : List Nat := []
 
@@ -78,7 +80,7 @@ def stepLine (d : DSt) (ws : List String) : DSt × List String :=
                        tpc := mode == "tpc",
                        allowSuspend := (kvNat rest "suspend").getD 0 != 0 || (kvNat rest "upgrade").getD 0 != 0,
                        allowUpgrade := (kvNat rest "upgrade").getD 0 != 0 }
-    ({ d with cfg := cfg }, ["ok", "--"])
+    ({ d with cfg := cfg, pool := (kvNat rest "pool").getD 0 }, ["ok", "--"])
   | ["start"] => if d.started then (d, ["bad-op", "--"]) else
       ({ d with started := true, s := { St.init d.cfg with resps := d.s.resps } }, ["started", "--"])
   | "resp-create" :: r :: rest =>
@@ -136,6 +138,11 @@ def stepLine (d : DSt) (ws : List String) : DSt × List String :=
     | none => (d, ["bad-op", "--"])
   | ["epoll-fail"] => doOp d (.armFail .epollCtl) false (post := ["ok"])
   | ["alloc-fail-off"] => doOp d .disarm false (post := ["ok"])
+  | ["pool-limits"] => if !d.started then (d, ["bad-op", "--"]) else
+      -- a pool of size 0 or 1 is no pool (MHD_OPTION_THREAD_POOL_SIZE 1 is ignored)
+      let n := if d.pool ≤ 1 then 0 else d.pool
+      let ls := workerLimits d.cfg.limit n
+      (d, [s!"pool n={n} limits=" ++ (if n = 0 then "-" else ",".intercalate (ls.map toString)), "--"])
   | ["defaults"] => if !d.started then (d, ["bad-op", "--"]) else
       (d, [s!"defaults limit={d.s.cfg.limit} pool={Mhd.Gen.Limits.defaultPoolSize}", "--"])
   | ["mark", x] => (d, [s!"mark {x}", "--"])
